@@ -299,6 +299,10 @@ func getModel(o *Obligation, opts solveOpts, consts []string) string {
 func dischargeAll(obls []*Obligation, opts solveOpts, par int) {
 	var wg sync.WaitGroup
 	sem := make(chan struct{}, par)
+	// fail fast: once several obligations of one function have not discharged, the function is broken (or its
+	// contract no longer fits it); the remaining ones get one short attempt, no retry and no case split
+	var mu sync.Mutex
+	failedIn := map[string]int{}
 	for _, o := range obls {
 		wg.Add(1)
 		sem <- struct{}{}
@@ -312,11 +316,21 @@ func dischargeAll(obls []*Obligation, opts solveOpts, par int) {
 				dischargeCanary(o, oo)
 				return
 			}
-			if o.KnownOpen && oo.timeoutS > 4 && !oo.all {
+			mu.Lock()
+			hopeless := failedIn[o.Func] >= 6 && !oo.all
+			mu.Unlock()
+			if (o.KnownOpen || hopeless) && oo.timeoutS > 4 && !oo.all {
 				oo.timeoutS = 4
 			}
+			defer func() {
+				if o.Status != "proved" && !o.KnownOpen { // counted on the final verdict only (after retry / case split)
+					mu.Lock()
+					failedIn[o.Func]++
+					mu.Unlock()
+				}
+			}()
 			discharge(o, oo)
-			if o.KnownOpen {
+			if o.KnownOpen || hopeless {
 				return
 			}
 			if o.Status == "unknown" && !o.MustFail {
